@@ -341,6 +341,19 @@ def runCase (xs : List Sx) : String :=
       | .err e => "enc" ++ showErr e
       | .panic p => "encpanic " ++ showPanic p
     | _, _, _, _ => "bad-case parse"
+  | [.atom "wsverdict", t, u, .atom tok] =>
+    -- the specification's verdict on what the implementation did with a value written at `t` and read
+    -- at `u`: accepted although the two types' schemas differ is a violation of the property itself
+    match ty? t, ty? u with
+    | some t, some u =>
+      match schemaOf t, schemaOf u with
+      | .ok ct, .ok cu =>
+        if ct == cu then "ok"
+        else if tok == "accepted" then
+          "SPEC: the schemas of the two types differ (" ++ hexOf ct.decl ++ " / " ++ hexOf cu.decl ++ ") but the value was accepted"
+        else "ok"
+      | _, _ => "ok"
+    | _, _ => "bad-case parse"
   | [.atom "wsraw", st, u, b] =>
     match strict? st, ty? u, bytes? b with
     | some st, some u, some bs => showOut showVal (tryFromSliceWithSchema st u bs)
